@@ -1,8 +1,8 @@
 (* Props/C10.v — Tucker decompositions (hosvd, tucker_als). Only statements, `exact`, Print Assumptions.
    Partial by design (DESIGN §C10): exact real arithmetic; LAPACK/ARPACK are certificate-checked oracles in the
    correspondence (Model/C10Check.v). *)
-From Coq Require Import List Arith Bool Reals.
-From PV Require Import Np.NpR Model.C10Tucker Proofs.C10Proofs.
+From Coq Require Import List Arith Bool Reals Ring.
+From PV Require Import Base.Index Base.Sum Np.Array Np.NpR Model.C10Tucker Proofs.C10Proofs Proofs.C10Ttm.
 Import ListNotations.
 Local Open Scope R_scope.
 
@@ -87,7 +87,27 @@ Print Assumptions C10_projector_bound.
 Print Assumptions C10_error_bound.
 Print Assumptions C10_tucker_als_fit.
 
+(* core relation in ANY mode order: products along different modes commute (every commutative ring, every denotation), so
+   X x_n U_n^T over all n is the same tensor whatever dimorder / sequential shrink order the code uses *)
+Section C10_ring.
+Variable V : Type.
+Variables (v0 v1 : V) (vadd vmul vsub : V -> V -> V) (vopp : V -> V).
+Hypothesis Vring : ring_theory v0 v1 vadd vmul vsub vopp (@eq V).
+Theorem C10_core_relation_order : forall (X : idx -> V) (Im In m n : nat) (A B : list (list V)) (i : idx),
+  m <> n -> (m < length i)%nat -> (n < length i)%nat ->
+  ttm_den v0 vadd vmul (ttm_den v0 vadd vmul X Im m A) In n B i =
+  ttm_den v0 vadd vmul (ttm_den v0 vadd vmul X In n B) Im m A i.
+Proof. exact (ttm_den_comm V v0 v1 vadd vmul vsub vopp Vring). Qed.
+End C10_ring.
+Print Assumptions C10_core_relation_order.
+
 (* non-vacuity *)
+Example C10_example_ttm :
+  let X := mkDense [2; 3]%nat [1; 2; 3; 4; 5; 6]%nat in
+  let A := [[1; 2]; [0; 1]; [3; 0]]%nat in let B := [[1; 0; 2]; [0; 1; 1]]%nat in
+  ttm 0%nat Nat.add Nat.mul (ttm 0%nat Nat.add Nat.mul X 0 A) 1 B = ttm 0%nat Nat.add Nat.mul (ttm 0%nat Nat.add Nat.mul X 1 B) 0 A
+  /\ ddata (ttm 0%nat Nat.add Nat.mul X 0 A) = [5; 2; 3; 11; 4; 9; 17; 6; 15]%nat.
+Proof. split; reflexivity. Qed.
 Example C10_example_rank : auto_rank 0 Rplus Rltb [9; 4; 1; 0] 2 = Some 1%nat /\ keep_cols 1 [3; 0; 2; 1]%nat = [3; 0]%nat.
 Proof. exact rank_choice_example. Qed.
 Example C10_example_projectors :
